@@ -231,7 +231,13 @@ func (h *FBDNSDB) ServeDNSWithRCODE(ctx context.Context, w dns.ResponseWriter, r
 
 	if h.cacheConfig.Enabled {
 		// fixed-width fields: type and class are 16-bit, so 5 digits each keep the key unambiguous
-		cacheKey = fmt.Sprintf("%.3d%.5d%.5d%s", loc.LocID, state.QType(), state.QClass(), state.Name())
+		// the number of address records in an answer depends on the listener's
+		// max-answer value, so it is part of the key as well
+		cacheMaxAns, ok := GetMaxAnswer(ctx)
+		if !ok {
+			cacheMaxAns = DefaultMaxAnswer
+		}
+		cacheKey = fmt.Sprintf("%.3d%.5d%.5d%.10d%s", loc.LocID, state.QType(), state.QClass(), cacheMaxAns, state.Name())
 		if v, ok := h.lru.Get(cacheKey); ok {
 			t := v.(cacheEntry).expiration
 			if t < time.Now().Unix() {
